@@ -921,6 +921,13 @@ func (c *EvalCtx) call(e ECall) EV {
 	case "wrap64":
 		return EV{T: app(SInt, "wrap64", c.term(c.eval(e.Args[0]))), Ty: intT}
 	case "held":
+		// Lock and Unlock of a discipline-only monitor keep their library meaning inside units: the lock state is
+		// not tracked there, and held() would be constantly false (a vacuous `!held(m)`): refuse it.
+		for _, m := range fr.R.Eng.DB.Monitors {
+			if m.Name == identName(e.Args[0]) && m.DisciplineOnly {
+				c.fail("held(%s): %s is a discipline-only monitor, its lock state is not tracked in units", m.Name, m.Name)
+			}
+		}
 		return EV{T: BoolLit(c.st.held[identName(e.Args[0])]), Ty: boolT}
 	case "local":
 		// current value of a named local of the function (discouraged; loop invariants over locals)
